@@ -112,7 +112,23 @@ func c02Release(what string) func(r *rig, name string) {
 			hash = c.GetHash()
 		}
 		if !r.receiverHolds(name, hash) {
-			r.violate("", "C02: the sender is about to %s %s (content md5 %s), but the receiver holds no validated copy with that hash (final=%v, receive log=%v)\n%s",
+			// Known finding: the poll names a file by name and time only, so a version of which
+			// not a single byte was ever transmitted is confirmed by the receiver's memory of an
+			// earlier version of that name.
+			class := ""
+			r.mu.Lock()
+			nAcks := len(r.ackedRanges()[name+" "+hash])
+			r.mu.Unlock()
+			other := false
+			for _, rec := range r.recvLogRecords() {
+				if strings.HasPrefix(rec, name+"|") {
+					other = true
+				}
+			}
+			if nAcks == 0 && other {
+				class = "poll-by-name-confirms-unsent-version"
+			}
+			r.violate(class, "C02: the sender is about to %s %s (content md5 %s), but the receiver holds no validated copy with that hash (final=%v, receive log=%v)\n%s",
 				what, name, hash, r.finalFiles(), r.recvLogRecords(), r.traceString())
 			return
 		}
